@@ -390,6 +390,117 @@ R.contract(
     replayable=False,
 )
 
+
+# ------------------------------------------------------------------------------------------------- schema.include(...) / schema.exclude(...): a NEW schema with the criteria added; the original keeps its own filters
+SCH = "schemathesis.schemas:"
+
+
+def _fs_like():
+    from pyvc.values import VObj
+
+    def clone(it, obj, a, k):
+        c = VObj(it.resolve_class("spec:FilterSetLike"), {"calls": list(obj.fields["calls"]), "origin": obj})
+        it.ghost["cloned"] = c
+        return c
+
+    def rec(kind):
+        def f(it, obj, a, k):
+            obj.fields["calls"] = obj.fields["calls"] + [(kind, tuple(a), {n: v for n, v in k.items() if v is not None})]
+
+        return f
+
+    return {"clone": clone, "include": rec("include"), "exclude": rec("exclude")}
+
+
+R.nominal_methods["spec:FilterSetLike"] = _fs_like()
+R.nominal_methods["spec:FilteredSchema"] = {"clone": lambda it, obj, a, k: __import__("pyvc.values", fromlist=["VObj"]).VObj(it.resolve_class("spec:FilteredSchema"), {"filter_set": k["filter_set"], "cloned_from": obj})}
+
+
+class _SchemaWithFilters(D):
+    def make(self, it, name, idx=()):
+        from pyvc.values import VObj
+
+        fs = VObj(it.resolve_class("spec:FilterSetLike"), {"calls": [("include", (), {"path": "/earlier"})], "origin": None})
+        return VObj(it.resolve_class("spec:FilteredSchema"), {"filter_set": fs, "cloned_from": None})
+
+
+_Crit = {"func": OneOf(NoneT, Opq("UserPredicate")), "name": _Val(), "name_regex": NoneT, "method": _Val(), "method_regex": NoneT, "path": NoneT, "path_regex": _Val(), "tag": _Val(), "tag_regex": NoneT,
+         "operation_id": NoneT, "operation_id_regex": _Val()}
+GIVEN = "{n: v for n, v in {'name': name, 'name_regex': name_regex, 'method': method, 'method_regex': method_regex, 'path': path, 'path_regex': path_regex, 'tag': tag, 'tag_regex': tag_regex, 'operation_id': operation_id, 'operation_id_regex': operation_id_regex}.items() if v is not None}"
+R.contract(
+    SCH + "BaseSchema.include",
+    prop="C07",
+    args={"self": _SchemaWithFilters(), **_Crit},
+    ghost={"cloned": None},
+    raises=[],
+    ensures={
+        "a_new_schema_whose_filters_are_the_old_ones_plus_this_include": "result is not self and result.cloned_from is self and result.filter_set is ghost('cloned') and "
+            "result.filter_set.calls == [('include', (), {'path': '/earlier'}), ('include', (func,), " + GIVEN + ")]",
+        "the_original_schema_keeps_its_own_filters": "self.filter_set.calls == [('include', (), {'path': '/earlier'})] and self.filter_set is not result.filter_set",
+    },
+    replayable=False,
+)
+R.spec_funcs["same_ref"] = lambda it, a, b: a is b
+R.spec_funcs["IS_DEPRECATED"] = lambda it: it.module_get(__import__("pyvc.extract", fromlist=["load_module"]).load_module("schemathesis.filters"), "is_deprecated")
+R.contract(
+    SCH + "BaseSchema.exclude",
+    prop="C07",
+    args={"self": _SchemaWithFilters(), **_Crit, "deprecated": Bool},
+    ghost={"cloned": None},
+    raises=[],
+    ensures={
+        # every criterion given becomes an EXCLUDE filter of the new schema; `deprecated=True` additionally excludes deprecated operations (as a criterion of its own when a predicate is given too)
+        "a_new_schema_with_the_exclusions_added": "result is not self and result.filter_set is ghost('cloned') and result.filter_set.calls[0] == ('include', (), {'path': '/earlier'}) and "
+            "all(c[0] == 'exclude' for c in result.filter_set.calls[1:]) and result.filter_set.calls[-1][2] == " + GIVEN,
+        "deprecated_operations_are_excluded_when_asked": "implies(deprecated, any(length(c[1]) == 1 and same_ref(c[1][0], IS_DEPRECATED()) for c in result.filter_set.calls[1:]))",
+        "the_users_predicate_is_always_kept": "implies(func is not None, any(length(c[1]) == 1 and same_ref(c[1][0], func) for c in result.filter_set.calls[1:]))",
+        "nothing_else_is_excluded": "length(result.filter_set.calls) == (3 if deprecated and func is not None else 2) and implies(not deprecated and func is None, result.filter_set.calls[-1][1] == (None,))",
+        "the_original_schema_keeps_its_own_filters": "self.filter_set.calls == [('include', (), {'path': '/earlier'})]",
+    },
+    replayable=False,
+)
+
+LZ = "schemathesis.pytest.lazy:"
+
+
+class _LazyWithFilters(D):
+    def make(self, it, name, idx=()):
+        from pyvc.values import VObj
+
+        fs = VObj(it.resolve_class("spec:FilterSetLike"), {"calls": [("include", (), {"path": "/earlier"})], "origin": None})
+        return VObj(it.resolve_class(LZ + "LazySchema"), {"fixture_name": "api_schema", "filter_set": fs})
+
+
+R.contract(
+    LZ + "LazySchema.include",
+    prop="C07",
+    args={"self": _LazyWithFilters(), **_Crit},
+    ghost={"cloned": None},
+    raises=[],
+    ensures={
+        # pytest lazy fixtures: the same rule
+        "a_new_lazy_schema_whose_filters_are_the_old_ones_plus_this_include": "result is not self and result.fixture_name == self.fixture_name and result.filter_set is ghost('cloned') and "
+            "result.filter_set.calls == [('include', (), {'path': '/earlier'}), ('include', (func,), " + GIVEN + ")]",
+        "the_original_keeps_its_own_filters": "self.filter_set.calls == [('include', (), {'path': '/earlier'})]",
+    },
+    replayable=False,
+)
+R.contract(
+    LZ + "LazySchema.exclude",
+    prop="C07",
+    args={"self": _LazyWithFilters(), **_Crit, "deprecated": Bool},
+    ghost={"cloned": None},
+    raises=[],
+    ensures={
+        "a_new_lazy_schema_with_the_exclusions_added": "result is not self and result.fixture_name == self.fixture_name and result.filter_set is ghost('cloned') and result.filter_set.calls[0] == ('include', (), {'path': '/earlier'}) and "
+            "all(c[0] == 'exclude' for c in result.filter_set.calls[1:]) and result.filter_set.calls[-1][2] == " + GIVEN,
+        "deprecated_operations_are_excluded_when_asked": "implies(deprecated, any(length(c[1]) == 1 and same_ref(c[1][0], IS_DEPRECATED()) for c in result.filter_set.calls[1:]))",
+        "the_users_predicate_is_always_kept": "implies(func is not None, any(length(c[1]) == 1 and same_ref(c[1][0], func) for c in result.filter_set.calls[1:]))",
+        "the_original_keeps_its_own_filters": "self.filter_set.calls == [('include', (), {'path': '/earlier'})]",
+    },
+    replayable=False,
+)
+
 LEVEL_TEXT = ("Deductive: the selection rule of the property is the machine-checked postcondition of the real FilterSet.match (loop invariant, sets of any size); "
               "matchers, attribute access, _should_skip (with an arbitrary stale shared cache), the GraphQL variant and the link rule carry their own contracts, "
               "all discharged by z3 from the current source on every run. Whole-document iteration is cross-checked by a bounded stand-in only.")
